@@ -241,6 +241,9 @@ UC14Two(u) == {[inp |-> <<In212(TRUE, a, b), In212(h, {}, d)>>,
               : a \in SUBSET {<<1, 1, 1>>}, b \in SUBSET {<<1, 1, 2>>, <<2, 1, 2>>}, d \in SUBSET {<<2, 1, 1>>, <<2, 1, 2>>}, h \in BOOLEAN,
                 sh \in ClimShapes, mf \in {{}, {<<1, 1, 1>>}}, m \in {<<"lin", "subtract">>, <<"small", "divide">>}}
 
+\* -obsrange together with a climatology: the range is a range of OBSERVED values (1112..1211 keeps two of the four observations), not of anomalies
+UC14Range(u) == {[x EXCEPT !.opt = WithOpt(NoOptions, "obsrange", <<R(1112), R(1211)>>)]
+                   : x \in {y \in UC14(0) \cup UC14Two(0) : y.clim.mf = {} /\ ~y.clim.hasObs /\ \A j \in DOMAIN y.inp : y.inp[j].mo = {}}}
 \* (the universes take a dummy parameter so that TLC does not pre-evaluate all of them as constants)
 \* C18: datasets whose inputs disagree on which cells are missing (the interesting ones for caches that are written in place)
 UC18Quick(u) == {[inp |-> <<In212(TRUE, a, b), In212(TRUE, c, d)>>, clim |-> NoClimGen, opt |-> NoOptions]
@@ -363,6 +366,7 @@ Universe(u) ==
     [] Family = "C11Sel"    -> UC11Sel(0)
     [] Family = "C14"       -> UC14(0)
     [] Family = "C14Two"    -> UC14Two(0)
+    [] Family = "C14Range"  -> UC14Range(0)
 
 ---------------------------------------------------------------------------
 (* request menu: every field combination, input, and every slice of the listed axes *)
